@@ -5,7 +5,7 @@ open C18 C17
 
 /-- phases in which the wrapper has got past waiting for its dependencies. -/
 def pastDeps : WPhase → Bool
-  | .innerStart | .startCleanup | .run | .stopWait | .innerStop => true
+  | .innerStart | .startCleanup | .run | .stopEntry | .stopWait | .innerStop => true
   | _ => false
 
 def beforeRun : WPhase → Bool
@@ -241,13 +241,21 @@ theorem local_ok (s : Sys) (hi : RInv s) (e : REv) (m : Mod) (x' : ModSt) (h : s
     simp only [Sys.local] at h
     split at h
     · rename_i hg
+      cases h
+      have hdm := hd m (Or.inr (Or.inl (by rw [hg.1]; rfl)))
+      refine ⟨id, by simp [hg.1, WPhase.terminal], fun _ => hdm, by simp, by simp, by simp [beforeRun], hs m, hq m, by simp, by simp [beforeCleanup]⟩
+    · cases h
+  | stopLooks k =>
+    simp only [Sys.local] at h
+    split at h
+    · rename_i hg
       split at h
       · cases h
-        have hdm := hd m (Or.inr (Or.inl (by rw [hg.1]; rfl)))
-        refine ⟨id, by simp [hg.1, WPhase.terminal], fun _ => hdm, by simp, by simp, by simp [beforeRun], hs m, hq m, by simp, by simp [beforeCleanup]⟩
+        have hdm := hd m (Or.inr (Or.inl (by rw [hg]; rfl)))
+        refine ⟨id, by simp [hg, WPhase.terminal], fun _ => hdm, by simp, by simp, by simp [beforeRun], hs m, hq m, by simp, by simp [beforeCleanup]⟩
       · cases h
-        have hdm := hd m (Or.inr (Or.inl (by rw [hg.1]; rfl)))
-        refine ⟨id, by simp [hg.1, WPhase.terminal], fun _ => hdm, ?_, ?_, ?_, hs m, hq m, ?_, ?_⟩
+        have hdm := hd m (Or.inr (Or.inl (by rw [hg]; rfl)))
+        refine ⟨id, by simp [hg, WPhase.terminal], fun _ => hdm, ?_, ?_, ?_, hs m, hq m, ?_, ?_⟩
         · intro ok hh; split at hh <;> cases hh
         · intro hh; split at hh <;> cases hh
         · intro hh; split at hh <;> simp [beforeRun] at hh
@@ -404,6 +412,7 @@ theorem fail_step_enabled (s : Sys) (hi : RInv s) (m d : Mod) (hd : d ∈ s.star
   | innerStart => rw [hph] at hpast; cases hpast
   | startCleanup => rw [hph] at hpast; cases hpast
   | run => rw [hph] at hpast; cases hpast
+  | stopEntry => rw [hph] at hpast; cases hpast
   | stopWait => rw [hph] at hpast; cases hpast
   | innerStop => rw [hph] at hpast; cases hpast
   | term => rw [hph] at hnt; cases hnt
